@@ -466,13 +466,22 @@ def single_return_expr(fnode: ast.FunctionDef, ex: Extractor) -> Rat:
     body = list(fnode.body)
     if body and isinstance(body[0], ast.Expr) and isinstance(body[0].value, ast.Constant):
         body = body[1:]
-    for s in body:
+    for k, s in enumerate(body):
         if isinstance(s, ast.Assign) and len(s.targets) == 1 and isinstance(s.targets[0], ast.Name):
             ex.env[s.targets[0].id] = ex.ev(s.value)
         elif isinstance(s, ast.AnnAssign) and isinstance(s.target, ast.Name) and s.value is not None:
             ex.env[s.target.id] = ex.ev(s.value)
         elif isinstance(s, ast.Return) and s.value is not None:
             return ex.ev(s.value)
+        elif isinstance(s, ast.If) and len(s.body) == 1 and len(s.orelse) == 1 and \
+                all(isinstance(x, ast.Assign) and len(x.targets) == 1 and isinstance(x.targets[0], ast.Name) for x in s.body + s.orelse) and \
+                s.body[0].targets[0].id == s.orelse[0].targets[0].id:
+            # statement form of  x = A if c else B
+            ex.env[s.body[0].targets[0].id] = ex.ev(ast.IfExp(test=s.test, body=s.body[0].value, orelse=s.orelse[0].value))
+        elif isinstance(s, ast.If) and len(s.body) == 1 and not s.orelse and isinstance(s.body[0], ast.Return) and s.body[0].value is not None and \
+                k + 2 == len(body) and isinstance(body[k + 1], ast.Return) and body[k + 1].value is not None:
+            # statement form of  return A if c else B
+            return ex.ev(ast.IfExp(test=s.test, body=s.body[0].value, orelse=body[k + 1].value))
         else:
             raise Unsupported(f"statement {type(s).__name__} in a formula body")
     raise Unsupported("no return")
